@@ -16,11 +16,12 @@ def pairing(ctx, rule):
     nones = option_blocks(b, "None")
     ok = any(has_fact(b, nb, {}, ("false", "js_identifiers::is_valid_javascript_identifier(arg3)", None)) for nb in nones)
     ctx.check(ok, rule, fn, "not-identifier->None", "nothing is returned when the given name is not a JavaScript identifier")
-    its = [sh for l in sorted(b.var_names) for sh, _, _ in q.def_shapes(b, l, {}) if b.var_names[l] == "iter"]
+    its = [sh for l in sorted(b.var_names) for sh, _, _ in q.def_shapes(b, l, {}) if sh.startswith("Iterator::peekable(")]
     ctx.check(its == ["Iterator::peekable(Iterator::take(SourceView::rev_token_iter(arg1,arg2),128))"], rule, fn, "window:128", "the walk goes backwards from the looked-up token over at most 128 tokens", detail=str(its))
-    tok = [l for l in sorted(b.var_names) if b.var_names[l] == "token" and l > b.arg_count]
-    ident = [l for l in sorted(b.var_names) if b.var_names[l] == "original_identifier"]
-    item = [l for l in sorted(b.var_names) if b.var_names[l] == "item"]
+    NEXT0 = "some(Iterator::next(var:Peekable<Take<RevTokenIter<>>>))"
+    tok = [l for l in sorted(b.var_names) if l > b.arg_count and [sh for sh, _, _ in q.def_shapes(b, l, {})] == [NEXT0 + ".0"]]
+    ident = [l for l in sorted(b.var_names) if [sh for sh, _, _ in q.def_shapes(b, l, {})] == [NEXT0 + ".1"]]
+    item = [l for l in sorted(b.var_names) if [sh for sh, _, _ in q.def_shapes(b, l, {})] == ["some(Peekable::peek(var:Peekable<Take<RevTokenIter<>>>))"]]
     if not ctx.check(len(tok) == 1 and len(ident) == 1 and len(item) == 1, rule, fn, "roles", "current token, its text and the peeked element are recognisable"):
         return
     roles = {tok[0]: "cur", ident[0]: "cur_text", item[0]: "peeked"}
@@ -46,21 +47,31 @@ def pairing(ctx, rule):
         ctx.check(ok, rule, p, "lookup-then-resolve", "the map-level entry looks the position up and resolves from that token", detail=str(calls)[:200])
         cl = list(ctx.facts.closures_of(p))
         inner = [q.shape(c.expr_of_call(t)) for c in cl for bi, t in c.calls()]
-        ctx.check(inner == ["SourceView::get_original_function_name(upvar:sv,arg2,upvar:minified_name)"], rule, p, "resolve-args", "token, minified name and view are forwarded unchanged", detail=str(inner))
+        ctx.check(inner == ["SourceView::get_original_function_name(^arg5,arg2,^arg4)"], rule, p, "resolve-args", "token, minified name and view are forwarded unchanged", detail=str(inner))
 
 
 def rev_iter(ctx, rule):
     b = ctx.body(REV)
     fn = b.path
     # forward scan counters
-    off = [l for l in sorted(b.var_names) if b.var_names[l] == "off"]
-    idxs = [l for l in sorted(b.var_names) if b.var_names[l] == "idx" and b.locals[l]["mut"]]
-    newo = [l for l in sorted(b.var_names) if b.var_names[l] == "new_offset"]
-    if not ctx.check(len(off) == 1 and len(idxs) == 2 and len(newo) == 1, rule, fn, "roles", "byte and UTF-16 counters of both scans are recognisable"):
-        return
-    roles = {off[0]: "OFF", idxs[0]: "U1", idxs[1]: "U2", newo[0]: "NEW"}
     CH = "some(Iterator::next(var:Chars))"
     RCH = "some(Iterator::next(var:Rev<Chars>))"
+
+    def counter(op, fn_name, item):
+        out = []
+        for l in sorted(b.var_names):
+            if not b.locals[l]["mut"] or b.local_ty(l) != "usize":
+                continue
+            for sh, _, _ in q.def_shapes(b, l, {l: "SELF"}):
+                if sh in ("%s(SELF,char::%s(%s))" % (op, fn_name, item), "%s(char::%s(%s),SELF)" % (op, fn_name, item)):
+                    out.append(l)
+        return sorted(set(out))
+    off, u1 = counter("Add", "len_utf8", CH), counter("Add", "len_utf16", CH)
+    newo, u2 = counter("Sub", "len_utf8", RCH), counter("Add", "len_utf16", RCH)
+    idxs = u1 + u2
+    if not ctx.check(len(off) == 1 and len(u1) == 1 and len(u2) == 1 and len(newo) == 1, rule, fn, "roles", "byte and UTF-16 counters of both scans are recognisable"):
+        return
+    roles = {off[0]: "OFF", idxs[0]: "U1", idxs[1]: "U2", newo[0]: "NEW"}
     expect_defs(ctx, rule, b, off[0], roles, {"0": "zero", "Add(OFF,char::len_utf8(%s))" % CH: "utf8", "Add(char::len_utf8(%s),OFF)" % CH: "utf8"}, ["zero", "utf8"], "forward byte offset")
     expect_defs(ctx, rule, b, idxs[0], roles, {"0": "zero", "Add(U1,char::len_utf16(%s))" % CH: "utf16", "Add(char::len_utf16(%s),U1)" % CH: "utf16"}, ["zero", "utf16"], "forward UTF-16 column")
     expect_defs(ctx, rule, b, newo[0], roles, {"var:(&str, usize, usize).2": "start", "Sub(NEW,char::len_utf8(%s))" % RCH: "utf8"}, ["start", "utf8"], "backward byte offset")
@@ -76,7 +87,7 @@ def rev_iter(ctx, rule):
     stores = [q.shape(b.expr_of_rvalue(s["rv"]), roles) for bi, si, s, it in b.locations() if not it and s["k"] == "assign" and s["place"]["p"] and s["place"]["p"][-1].get("n") == "source_line"]
     want = "Option::Some{0:tuple(var:(&str, usize, usize).0,cast<usize>(Token::get_dst_line(%s)),cast<usize>(Token::get_dst_col(%s)),var:usize)}" % (TOK, TOK)
     ctx.check(want in stores and "Option::None{}" in stores, rule, fn, "cache:tuple", "the cache stores (line text, generated line, generated column, byte offset) in that order and is cleared when the offset runs past the line", detail=str(stores))
-    byteoff = [l for l in sorted(b.var_names) if b.var_names[l] == "byte_offset"]
+    byteoff = [l for l in sorted(b.var_names) if l not in roles and b.local_ty(l) == "usize" and sorted(sh for sh, _, _ in q.def_shapes(b, l, roles)) in (["NEW", "OFF"],)]
     if byteoff:
         r2 = dict(roles)
         ds = sorted(sh for sh, _, _ in q.def_shapes(b, byteoff[0], r2))
